@@ -220,7 +220,7 @@ macro_rules! cd_case {
 }
 
 macro_rules! for_ns {
-    ([$($n:ty),*], $N:ident => $body:block) => { $( { type $N = $n; $body } )* };
+    ([$($n:ty),*], $N:ident => $body:block) => { $( { type $N = $n; if <$N as generic_array::typenum::Unsigned>::USIZE <= vcommon::maxn() { $body } } )* };
 }
 
 pub fn run(ctx: &mut Ctx) {
